@@ -391,6 +391,38 @@ def r5_hint_coverage(ctx):
                             '%s but get_hint_params never renders it: the '
                             're-loaded mutation differs from the hinted one'
                             % (c.name, a), key='hint-omits:%s' % a)
+    # whether a stored argument is rendered may depend only on its own value
+    for c in sorted(classes, key=lambda x: x.name):
+        hp = c.methods.get('get_hint_params')
+        if hp is None:
+            continue
+        g = ctx.cfg(hp)
+        for n in g.nodes:
+            for call in n.calls():
+                if call_name(call) not in ('serialize_attr',
+                                           'serialize_value'):
+                    continue
+                rendered = {a.attr for arg in call.args
+                            for a in ast.walk(arg) if is_self_attr(a)}
+                if not rendered:
+                    continue
+                for t in g.nodes:
+                    if t.kind != 'test' or not (g.guarded_by(n, t, 'T') or
+                                                g.guarded_by(n, t, 'F')):
+                        continue
+                    tested = {a.attr for a in ast.walk(t.ast)
+                              if is_self_attr(a)}
+                    other = tested - rendered - {'prop_name'}
+                    if other:
+                        ctx.finding(hp, t.ast, '%s renders %s only when a '
+                                    'test on %s holds ("%s"): the argument is '
+                                    'silently dropped from the hint for some '
+                                    'mutations, so the re-loaded mutation '
+                                    'differs' % (
+                                        c.name, sorted(rendered),
+                                        sorted(other), unparse(t.ast)),
+                                    key='hint-conditional:%s:%s' % (
+                                        sorted(rendered), sorted(other)))
     # placeholders refuse to run
     pm = p.module('placeholders')
     n = 0
